@@ -130,7 +130,7 @@ Record GInv (s : st) : Prop := mkG {
   g_wbound : forall w, In w (workers s) -> w_pid w < next_pid s;
   g_new_fit : forall w, In w (workers s) -> isnew (hup_age s) w = true -> fit (kids s) (w_pid w);
   g_new_cfg : forall w, In w (workers s) -> isnew (hup_age s) w = true -> w_cfg w = cfgid s /\ w_lsn w = lsn s;
-  g_cfg : num s = cfgw s /\ 0 <= disk_w s /\ 0 <= num s;
+  g_cfg : 0 <= disk_w s /\ 0 <= num s;     (* num s = cfgw s: Proof/ReloadCount.v (it needs a reload to have happened when TTIN / TTOU came first) *)
   g_pc : pc_inv s;
   g_wpids : NoDup (pids (workers s))
 }.
@@ -181,7 +181,7 @@ Qed.
 Lemma step_edit : forall s w a, GInv s -> GInv (step s (Edit w a)).
 Proof.
   intros s w a G. simpl. destruct (0 <=? w) eqn:E; auto. apply Z.leb_le in E.
-  destruct G as [S A H K KB WB NF NC [C1 [C2 C3]] PC WP]. constructor; simpl; auto.
+  destruct G as [S A H K KB WB NF NC [C2 C3] PC WP]. constructor; simpl; auto.
 Qed.
 
 Lemma nodup_pids_remove : forall p l, NoDup (pids l) -> NoDup (pids (remove_wk p l)).
@@ -329,7 +329,7 @@ Qed.
 Lemma reload_step : forall s q, GInv s -> cur s = PSigq -> sigq s = SIGHUP :: q ->
   GInv (dispatch (set_sigq s q) SIGHUP).
 Proof.
-  intros s q [So A H K KB WB NF NC [C1 [C2 C3]] PC WP] E Q.
+  intros s q [So A H K KB WB NF NC [C2 C3] PC WP] E Q.
   unfold dispatch. rewrite Z.eqb_refl.
   assert (NoNew : filter (isnew (wage s)) (workers s) = []) by (apply no_new_after_hup; auto).
   assert (Vac : forall w, In w (workers s) -> isnew (wage s) w = true -> False).
@@ -545,9 +545,12 @@ Qed.
 Lemma boot_length : forall n l, length (boot_workers n l) = n.
 Proof. induction n; simpl; intros; auto. rewrite app_length. simpl. rewrite IHn. lia. Qed.
 
-Lemma init_ginv : forall n a, GInv (init n a).
+Lemma init_is_resized : forall n a, init n a = init_resized n (Z.of_nat n) a.
+Proof. reflexivity. Qed.
+
+Lemma init_resized_ginv : forall n cw a, 0 <= cw -> GInv (init_resized n cw a).
 Proof.
-  intros n a. unfold init. constructor; cbn -[Z.add Z.of_nat Z.ltb Z.leb].
+  intros n cw a Hcw. unfold init_resized. constructor; cbn -[Z.add Z.of_nat Z.ltb Z.leb].
   - apply boot_sorted.
   - intros w Hw. destruct (boot_workers_spec _ _ _ Hw) as [k [Hk E]]. subst w. cbn -[Z.add Z.of_nat Z.ltb Z.leb]. lia.
   - lia.
@@ -566,3 +569,6 @@ Proof.
       apply negb_true_iff in Ho. apply Z.ltb_ge in Ho. lia.
   - apply boot_pids_nodup.
 Qed.
+
+Lemma init_ginv : forall n a, GInv (init n a).
+Proof. intros n a. rewrite init_is_resized. apply init_resized_ginv. lia. Qed.
